@@ -81,7 +81,10 @@ var c20OpNames = []string{
 	"Resolve(__t)", "SetThisValue(__t,3)", "SetThis(fresh {__t:4,___u:5})", "Resolve([__t, this.___u, ___u, this.__t])",
 	"Resolve($e = [])", "Resolve([$e, $a])",
 	"SetThisValue(max,6)", "Resolve([this.max, this.x, max(1, 2)])", "Resolve(x ? $a = 5 : null, $a)", "Resolve((x ? null : ($a = 6)), $a)",
+	"Resolve([$a === 9, $a === 2, $a === 1, x === 2, x === 1])", "Resolve($a = ($a ?? 0) + 1, ... 40 times ..., $a)",
 }
+
+var c20Counting = strings.Repeat("$a = ($a ?? 0) + 1, ", 40) + "$a"
 
 var c20DeepChain = func() string {
 	s := "missing!.a1"
@@ -94,7 +97,8 @@ var c20DeepChain = func() string {
 var c20Formulas = map[int]string{9: "x", 10: "$a", 11: "$a = x", 12: "$a = 2", 13: "$b = $a", 14: "[$a,$b,x]", 15: "this.x", 16: "this",
 	22: "$a = 7 / 3", 23: "($a ?? 1) * 3", 24: "$a = 9007199254740993", 25: "($a ?? 0) - 9007199254740992", 26: "$a = ($b = 2)", 27: "$a = 2.75", 28: "len(left('abcdef', $a ?? 1))",
 	29: "regexp('a','(')", 30: c20DeepChain, 31: "x(1)", 32: "__t", 35: "[__t, this.___u, ___u, this.__t]", 36: "$e = []", 37: "[$e, $a]",
-	39: "[this.max, this.x, max(1, 2)]", 40: "x ? $a = 5 : null, $a", 41: "(x ? null : ($a = 6)), $a"}
+	39: "[this.max, this.x, max(1, 2)]", 40: "x ? $a = 5 : null, $a", 41: "(x ? null : ($a = 6)), $a",
+	42: "[$a === 9, $a === 2, $a === 1, x === 2, x === 1]", 43: c20Counting}
 
 // exact values behind the canonical strings of the model (numbers only)
 var c20Decs = map[string]ref.Dec{}
@@ -245,7 +249,7 @@ func (w *c20World) apply(op int) *eng.Fail {
 		// a data entry spelled like a builtin: `this.max` is that entry, `max(...)` the builtin
 		w.r.SetThisValue("max", 6.0)
 		w.ensure()["max"] = canonImpl(6.0)
-	case op >= 9 && op <= 16, op >= 22 && op <= 28, op == 32, op == 35, op == 36, op == 37, op >= 39 && op <= 41:
+	case op >= 9 && op <= 16, op >= 22 && op <= 28, op == 32, op == 35, op == 36, op == 37, op >= 39 && op <= 43:
 		src := c20Formulas[op]
 		p, err := cachedParse(src)
 		if err != nil {
@@ -351,6 +355,34 @@ func (w *c20World) apply(op int) *eng.Fail {
 				w.ensure()["$a"] = "n6"
 			}
 			want = get(w.curMap(), "$a")
+		case 42:
+			// entries the caller supplied under $-names and under plain names are numbers like any other
+			bs := func(b bool) string {
+				if b {
+					return "true"
+				}
+				return "false"
+			}
+			eq := func(k, lit string) string {
+				v := get(m, k)
+				if !strings.HasPrefix(v, "n") {
+					return "false"
+				}
+				d, _ := ref.ParseDec(lit)
+				return bs(c20Dec(v, "0").Cmp(d) == 0)
+			}
+			if exp, got := "["+eq("$a", "9")+" "+eq("$a", "2")+" "+eq("$a", "1")+" "+eq("x", "2")+" "+eq("x", "1")+"]", fmt.Sprint(o.val); got != exp {
+				return eng.F("C20/resolve", "%s = %s, model says %s ($a is %s, x is %s)", name, got, exp, get(m, "$a"), get(m, "x"))
+			}
+			want = canonImpl(o.val)
+		case 43:
+			// forty statements in one sequence, each evaluated once, in order
+			if v := get(m, "$a"); v != "null" && !strings.HasPrefix(v, "n") {
+				return nil // (an array in $a: + is not arithmetic then; not this operation's business)
+			}
+			forty, _ := ref.ParseDec("40")
+			want = c20Canon(ref.Add(c20Dec(get(m, "$a"), "0"), forty).RoundHE(34))
+			w.ensure()["$a"] = want
 		case 26:
 			want = "n2"
 			mm := w.ensure()
